@@ -1,0 +1,96 @@
+//go:build verif
+
+// Contracts and ghost specification functions for deductive verification (govc).
+// This file is only compiled with the build tag "verif"; it adds no behaviour.
+
+package chunkparser
+
+func implies(a, b bool) bool { return !a || b }
+
+func forall(lo, hi int, f func(int) bool) bool {
+	for i := lo; i < hi; i++ {
+		if !f(i) {
+			return false
+		}
+	}
+	return true
+}
+
+// sameArray (spec builtin): two slices share their backing array.
+func sameArray(a, b []byte) bool { return len(a) > 0 && len(b) > 0 && &a[:1][0] == &b[:1][0] }
+
+func assert(b bool) {
+	if !b {
+		panic("ghost assert failed")
+	}
+}
+
+// Ghost state of one parse (never touched by the real code; only the contracts of the
+// reader and of the callback speak about it):
+// ghostInput is the complete byte stream the reader will deliver, ghostConsumed the number
+// of bytes the reader has handed out so far, ghostDelivered the number of bytes passed to
+// callbacks so far.
+var ghostInput []byte
+var ghostConsumed int
+var ghostDelivered int
+
+// A well-behaved reader: hands out the next n bytes of the stream (0 <= n <= len(p)), reports
+// io.EOF only when the stream is exhausted, and makes progress (n > 0 or an error) when asked
+// for at least one byte.
+//@ extern func io.Reader.Read(r, p) (n, err)
+//@   requires len(p) > 0
+//@   ensures  0 <= n && n <= len(p) && ghostConsumed == old(ghostConsumed) + n && ghostConsumed <= len(ghostInput)
+//@   ensures  forall i in [0, n) :: p[i] == ghostInput[old(ghostConsumed)+i]
+//@   ensures  forall i in [n, len(p)) :: p[i] == old(p[i])
+//@   ensures  n == 0 ==> err != nil
+//@   ensures  err == io.EOF ==> ghostConsumed == len(ghostInput)
+//@   assigns  p[*], ghostConsumed
+
+// The callback must receive exactly the next undelivered bytes of the stream, with Start the
+// (32-bit) offset of the chunk within the data delivered since the last reset.
+//@ extern func field:MP4ChunkParser.callBack(cd) (err)
+//@   requires exact: ghostDelivered + len(cd.Data) <= len(ghostInput) && forall i in [0, len(cd.Data)) :: cd.Data[i] == ghostInput[ghostDelivered+i]
+//@   requires nonempty: len(cd.Data) > 0
+//@   ensures  ghostDelivered == old(ghostDelivered) + len(cd.Data)
+//@   assigns  ghostDelivered
+
+//@ extern func (encoding/binary.bigEndian).Uint32(be, b) (v)
+//@   requires len(b) >= 4
+//@   ensures  v == uint32(b[0])*16777216 + uint32(b[1])*65536 + uint32(b[2])*256 + uint32(b[3])
+
+// mirrors: the first contentEnd bytes of the buffer are the consumed but not yet delivered bytes.
+func mirrors(p *MP4ChunkParser) bool {
+	return !sameArray(p.buf, ghostInput) && 0 <= p.contentEnd && p.contentEnd <= len(p.buf) && 0 <= ghostDelivered && ghostDelivered+p.contentEnd == ghostConsumed && ghostConsumed <= len(ghostInput) &&
+		forall(0, p.contentEnd, func(i int) bool { return p.buf[i] == ghostInput[ghostDelivered+i] })
+}
+
+//@ func (*MP4ChunkParser).readUntil
+//@   requires p != nil && p.r != nil && mirrors(p) && 0 <= contentEnd && contentEnd <= 8589934592
+//@   ensures  mirrors(p) && ghostDelivered == old(ghostDelivered) && p.contentEnd >= old(p.contentEnd)
+//@   ensures  result == nil ==> p.contentEnd >= contentEnd
+//@   ensures  result == io.EOF ==> ghostConsumed == len(ghostInput)
+//@   ensures  p.r == old(p.r) && p.callBack == old(p.callBack)
+//@   ensures  sameArray(p.buf, old(p.buf)) || fresh(p.buf) || p.buf == nil
+//@   ensures  exactTarget: result == nil && old(p.contentEnd) <= contentEnd ==> p.contentEnd == contentEnd
+//@   ensures  notBeyond: p.contentEnd <= max(old(p.contentEnd), contentEnd)
+//@   assigns  p.buf, p.contentEnd, p.buf[*], ghostConsumed
+//@   allocates
+//@   loop 1 invariant mirrors(p) && ghostDelivered == old(ghostDelivered) && p.contentEnd >= old(p.contentEnd) && p.contentEnd < contentEnd && old(p.contentEnd) < contentEnd && p.contentEnd <= contentEnd && p.r == old(p.r) && p.callBack == old(p.callBack) && p != nil
+//@   loop 1 invariant sameArray(p.buf, old(p.buf)) || fresh(p.buf) || p.buf == nil
+//@   loop 1 decreases len(ghostInput) - ghostConsumed
+
+// Parse: every callback receives exactly the next undelivered bytes of the stream (the
+// precondition of the callback contract), so the concatenation of all callback data is a
+// prefix of the input; when Parse returns nil the whole input has been delivered. The loop
+// terminates for every input (variant: bytes not yet consumed).
+//@ func (*MP4ChunkParser).Parse
+//@   requires p != nil && p.r != nil && mirrors(p) && p.contentEnd == 0 && ghostDelivered == 0
+//@   ensures  complete: result == nil ==> ghostDelivered == len(ghostInput)
+//@   ensures  prefix: ghostDelivered <= ghostConsumed && ghostConsumed <= len(ghostInput)
+//@   assigns  p.buf, p.contentEnd, p.buf[*], ghostConsumed, ghostDelivered
+//@   allocates
+//@   loop 1 invariant p != nil && p.r == old(p.r) && p.r != nil && p.callBack == old(p.callBack) && mirrors(p)
+//@   loop 1 invariant int(nextBoxStart) == p.contentEnd && mdatEnd <= nextBoxStart && nextBoxStart <= 4294967287
+//@   loop 1 invariant cd.Start == uint32(ghostDelivered)
+//@   loop 1 invariant sameArray(p.buf, old(p.buf)) || fresh(p.buf) || p.buf == nil
+//@   loop 1 decreases len(ghostInput) - ghostConsumed
